@@ -7,10 +7,15 @@ from checks import hbcommon as H
 
 def mc(chk, cov):
     thorough = chk.tier == "thorough"
-    runs = [("HybridBuffer_thorough.cfg" if thorough else "HybridBuffer_quick.cfg", 3000), ("HybridBuffer_nodir.cfg", 900),
+    runs = [("HybridBuffer_thorough.cfg" if thorough else "HybridBuffer_quick.cfg", 5400), ("HybridBuffer_nodir.cfg", 900),
             ("HybridBuffer_live.cfg", 900)]
+    # refinement: the impl-shaped spec implements DurableFifo, the buffer the agent-level spec assumes (temporal property)
+    rr = chk.tlc_mc("HybridBufferRef", "HybridBufferRef.cfg" if thorough else "HybridBufferRef_quick.cfg", timeout=1800)
+    cov_ref = {"cfg": rr["cfg"], "distinct": rr.get("distinct"), "generated": rr.get("generated"), "ok": rr["ok"], "wall_s": rr["wall_s"]}
+    if not rr["ok"]:
+        raise vlib.Inconclusive("HybridBuffer does not refine DurableFifo (spec-level):\n" + rr.get("counterexample", "")[:3000])
     st = tr = 0
-    cov["mc_runs"] = []
+    cov["mc_runs"] = [cov_ref]
     for cfg, to in runs:
         r = chk.tlc_mc("HybridBuffer", cfg, timeout=to)
         cov["mc_runs"].append({"cfg": cfg, "distinct": r.get("distinct"), "generated": r.get("generated"), "ok": r["ok"], "wall_s": r["wall_s"]})
